@@ -652,6 +652,26 @@ func anyDisposedTest(info *types.Info, cond ast.Expr) (base string, dead bool, o
 		return true
 	})
 	if flag == nil {
+		// a predicate method of the owner: x.isDisposed()
+		c := unparen(cond)
+		neg := false
+		for {
+			u, isU := c.(*ast.UnaryExpr)
+			if !isU || u.Op != token.NOT {
+				break
+			}
+			c, neg = unparen(u.X), !neg
+		}
+		if call, isC := c.(*ast.CallExpr); isC && theWorld != nil {
+			if rcv, _, isM := methodCall(call); isM {
+				if rn := recvNamed(callee(info, call)); rn != nil && (rn.Obj().Name() == "scope" || rn.Obj().Name() == "provider") {
+					fl := theWorld.Field(theWorld.Godi, rn.Obj().Name(), "disposed")
+					if d, ok := disposedPredicate(callee(info, call), fl, 2); ok {
+						return exprStr(rcv), d != neg, true
+					}
+				}
+			}
+		}
 		return "", false, false
 	}
 	d, ok := disposedTest(info, cond, flag)
